@@ -34,7 +34,14 @@ RULE = (
     "impulse 0 / uniform / lobe 0 with a NaN at their maximum and a zero in the last (wrap) bin, on the first two "
     "bands only (one xarray call per member and quantity). A member is non-trivial when at least two of its four "
     "frequencies carry energy (so moments, peak and band averages are all compared); distinct = distinct "
-    "(grid, base, hole) triples, counted once (in the (time) layout)."
+    "(grid, base, hole) triples, counted once (in the (time) layout). History family (units 'history:*'): on two "
+    "grids (thorough: four) x every layout, EVERY sequence of length 1..3 over the operation alphabet {read e, read "
+    "a1..b2, read hm0, as_frequency_spectrum} + {multiply(full shape, inplace), multiply(per direction, inplace), "
+    "fillna(1.0), spec['variance_density']=..., spec.dataset['variance_density']=...} is executed on a fresh object "
+    "holding six members (layout (): one member, two more for length <= 2); every read is compared with the "
+    "reference computed from the variance density the object holds at that moment, and after the last step e, the "
+    "moments, their bounds, hm0 and the 2D->1D parity are all checked. A history is non-trivial when a read "
+    "precedes an in-place modification (a stale cache could be observed)."
 )
 ASSUMPTIONS = [
     "every gap between neighbouring directions (including the wrap gap) is below 180 degrees: the library wraps "
@@ -50,6 +57,7 @@ REQUIRED_CATEGORIES = [
     "cell_zero_energy", "cell_all_nan", "cell_moments_compared", "cell_on_unit_circle", "bounds_checked",
     "parity_compared", "parity_direction_compared", "layout_scalar", "layout_time", "layout_time_lat", "layout_flat",
     "integrate_spectral_data_compared", "numba_quadrature_compared", "depth_nan", "depth_finite",
+    "history_executed", "history_read_then_mutate", "history_mutation_steps", "history_fillna_filled_bins",
 ]
 
 F = np.array([0.05, 0.1, 0.2, 0.35])
@@ -61,6 +69,13 @@ DEPTHS = [np.inf, 5.0, 50.0, np.nan, 5000.0, 0.5]
 LAYOUTS = ("scalar", "time", "time_lat", "flat")
 LEAD_NAMES = {"scalar": (), "time": ("time",), "time_lat": ("time", "latitude"), "flat": ("linear_index",)}
 MAX_CELLS = 2_000_000   # doubles per batch array
+
+# history family: one object, a sequence of reads and in-place modifications (see run_history)
+HISTORY_GRIDS = {"quick": ["alt8@350w", "uni12@7.5"], "thorough": ["uni36@-170", "widewrap12@0"]}
+HISTORY_READS = ("e", "moments", "hm0", "as1d")
+HISTORY_MUTATORS = ("mul_full", "mul_direction", "fillna", "setitem", "dataset_assign")
+HISTORY_OPS = HISTORY_READS + HISTORY_MUTATORS
+HISTORY_MAXLEN = 3
 
 
 # ---------------------------------------------------------------------------------------------
@@ -158,6 +173,10 @@ def units(tier):
         for layout in LAYOUTS:
             cost = n * n if layout != "scalar" else 6 * n * n
             us.append({"name": f"{g['name']}:{layout}", "grid": g["name"], "layout": layout, "cost": cost})
+    for gname in HISTORY_GRIDS["quick"] + (HISTORY_GRIDS["thorough"] if tier == "thorough" else []):
+        for layout in LAYOUTS:
+            us.append({"name": f"history:{gname}:{layout}", "kind": "history", "grid": gname, "layout": layout,
+                       "cost": 5000})
     return us
 
 
@@ -317,6 +336,8 @@ class Reporter:
 
 
 def run_unit(unit):
+    if unit.get("kind") == "history":
+        return run_history(unit)
     tier = unit["tier"]
     g = next(x for x in grids(tier) if x["name"] == unit["grid"])
     layout = unit["layout"]
@@ -602,3 +623,214 @@ def check_chunk(c, rep, g, layout, theta, w_ref, labels, chunk, E, Ein, depin, d
         c.sample({"grid": g["name"], "theta": theta, "layout": layout, "member": list(lab(0)),
                   "density_rows": E[0].tolist(), "e": e_lib[0].tolist(), "a1": moms["a1"][0].tolist(),
                   "b1": moms["b1"][0].tolist(), "e_ref": eref[0].tolist()})
+
+
+# ---------------------------------------------------------------------------------------------
+# history family: reads and in-place modifications on ONE object
+# ---------------------------------------------------------------------------------------------
+def ref_from_density(theta, E):
+    """E (n, NF, N), NaN allowed -> e (n, NF), moments (4, n, NF) (NaN where e == 0), hm0 (n,).  No library."""
+    n = E.shape[0]
+    sums = ref_directional(theta, E.reshape(n * NF, len(theta)))
+    e = sums[0].reshape(n, NF)
+    mom = np.full((4, n, NF), np.nan)
+    pos = e > 0
+    for q in range(4):
+        num = sums[q + 1].reshape(n, NF)
+        mom[q][pos] = num[pos] / e[pos]
+    m0 = trapz_band(e, np.ones(NF, dtype=bool))
+    return e, mom, 4.0 * np.sqrt(m0)
+
+
+def history_members(theta, labels):
+    n = len(theta)
+    index = {lab: i for i, lab in enumerate(labels)}
+    wanted = [("lobe", 1, "n", 1), ("imp", 0, "none"), ("nan", "none"), ("uni", "n", n - 1), ("lobe", 0, "z", 2),
+              ("zero", "n", 2)]
+    return [index[w] for w in wanted]
+
+
+def all_histories():
+    import itertools
+
+    out = []
+    for length in range(1, HISTORY_MAXLEN + 1):
+        out += [list(h) for h in itertools.product(HISTORY_OPS, repeat=length)]
+    return out
+
+
+def run_history(unit):
+    tier = unit["tier"]
+    g = next(x for x in grids(tier) if x["name"] == unit["grid"])
+    layout = unit["layout"]
+    theta = list(g["theta"])
+    n = len(theta)
+    c = Collector()
+    rep = Reporter(c, {"grid": g["name"], "layout": layout, "family": "history"}, cap=3)
+    c.cat("layout_" + layout)
+    labels, X = members(theta)
+    M = X.shape[0]
+    sel = history_members(theta, labels)
+    lead_names = LEAD_NAMES[layout]
+
+    def density(ms):
+        idx = np.array(ms)
+        return np.stack([ROW_COEF[i] * X[(idx + ROW_OFF[i]) % M] for i in range(NF)], axis=1)
+
+    if layout == "scalar":
+        member_sets = [([sel[0]], HISTORY_MAXLEN), ([sel[1]], 2), ([sel[2]], 2)]
+    else:
+        member_sets = [(sel, HISTORY_MAXLEN)]
+    wdir = np.array([0.5 + (j % 3) for j in range(n)])
+    first = True
+    for ms, maxlen in member_sets:
+        E0 = density(ms)
+        nm = len(ms)
+        for hist in all_histories():
+            if len(hist) > maxlen:
+                continue
+            try:
+                one_history(c, rep, g, layout, theta, lead_names, E0, nm, hist, wdir)
+            except Exception as exc:
+                if traceback.extract_tb(exc.__traceback__)[-1].filename.startswith("/verif/"):
+                    raise
+                rep("history raises", f"{type(exc).__name__}: {exc} in history {hist}", history=hist,
+                    traceback=traceback.format_exc()[-1500:])
+            c.evaluations += nm
+            c.cat("history_executed")
+            seen_read = False
+            stale_possible = False
+            for op in hist:
+                if op in HISTORY_READS:
+                    seen_read = True
+                elif seen_read:
+                    stale_possible = True
+            c.cat("history_mutation_steps", sum(1 for op in hist if op in HISTORY_MUTATORS))
+            if stale_possible:
+                c.cat("history_read_then_mutate")
+                if layout == "time":
+                    c.nontriv((g["name"], "history") + tuple(hist))
+        if first:
+            c.sample({"family": "history", "grid": g["name"], "layout": layout, "members": [list(labels[m]) for m in ms],
+                      "operations": list(HISTORY_OPS), "max_length": maxlen, "histories": len(all_histories())})
+            first = False
+    c.case({"family": "history", "grid": g["name"], "layout": layout, "ops": list(HISTORY_OPS), "maxlen": HISTORY_MAXLEN})
+    r = c.result()
+    if layout != "time":
+        r["distinct_nontrivial"] = 0
+    return r
+
+
+def one_history(c, rep, g, layout, theta, lead_names, E0, nm, hist, wdir):
+    n = len(theta)
+    if layout == "scalar":
+        s = make_2d(F, np.array(theta), E0[0].copy())
+    else:
+        s = make_2d(F, np.array(theta), reshape_lead(E0.copy(), layout, (NF, n)), flat=(layout == "flat"))
+
+    def current():
+        """the variance density the object holds NOW, and the reference quantities that follow from it."""
+        cur = np.array(_vals(s.variance_density), dtype=float).reshape(nm, NF, n)
+        return (cur,) + ref_from_density(theta, cur)
+
+    def fail(step, what, **detail):
+        rep(f"history {what}", f"after {hist[:step + 1]} (step {step}: {hist[step]}): {detail.pop('msg')}",
+            history=list(hist), step=step, **detail)
+
+    def chk_e(step, v, ref_e, what="e"):
+        v = np.asarray(v, dtype=float).reshape(nm, NF)
+        if not np.all(close(v, ref_e, rtol=1e-12)):
+            i = int(np.argwhere(~close(v, ref_e, rtol=1e-12))[0][0])
+            fail(step, what, msg=f"{what}={v[i].tolist()} but the current variance density gives {ref_e[i].tolist()}")
+            return False
+        return True
+
+    def chk_mom(step, vals, ref_e, ref_mom, what="moments"):
+        pos = ref_e > 0
+        ok = True
+        for q, nmq in enumerate(("a1", "b1", "a2", "b2")):
+            v = np.asarray(vals[q], dtype=float).reshape(nm, NF)
+            with np.errstate(invalid="ignore"):
+                bad = pos & ~(np.abs(v - ref_mom[q]) <= 1e-12)
+                badb = pos & ~(np.abs(v) <= 1.0 + 1e-12)
+            if bad.any():
+                i, fi = np.argwhere(bad)[0]
+                fail(step, what, msg=f"{nmq}(f{fi})={v[i, fi]} but the current variance density gives "
+                     f"{ref_mom[q][i, fi]}")
+                ok = False
+            if badb.any():
+                i, fi = np.argwhere(badb)[0]
+                fail(step, what + " bound", msg=f"|{nmq}(f{fi})|={abs(v[i, fi])} > 1")
+                ok = False
+        a1 = np.asarray(vals[0], dtype=float).reshape(nm, NF)
+        b1 = np.asarray(vals[1], dtype=float).reshape(nm, NF)
+        with np.errstate(invalid="ignore"):
+            bad = pos & ~(a1 ** 2 + b1 ** 2 <= 1.0 + 1e-12)
+        if bad.any():
+            i, fi = np.argwhere(bad)[0]
+            fail(step, what + " bound", msg=f"a1^2+b1^2={a1[i, fi] ** 2 + b1[i, fi] ** 2} > 1 at f{fi}")
+            ok = False
+        return ok
+
+    def chk_1d(step, s1, ref_e, ref_mom, ref_hm0):
+        ok = chk_e(step, _vals(s1.dataset["variance_density"]), ref_e, "as_frequency_spectrum variance_density")
+        ok &= chk_mom(step, [_vals(s1.dataset[k]) for k in ("a1", "b1", "a2", "b2")], ref_e, ref_mom,
+                      "as_frequency_spectrum moments")
+        h1 = np.asarray(_vals(s1.hm0()), dtype=float).reshape(nm)
+        if not np.all(close(h1, ref_hm0, rtol=1e-12)):
+            fail(step, "as_frequency_spectrum hm0", msg=f"1D Hm0 {h1.tolist()} but the 2D variance density gives "
+                 f"{ref_hm0.tolist()}")
+            ok = False
+        return ok
+
+    for step, op in enumerate(hist):
+        if op in HISTORY_READS:
+            cur, ref_e, ref_mom, ref_hm0 = current()
+            if op == "e":
+                chk_e(step, _vals(s.e), ref_e)
+            elif op == "moments":
+                chk_mom(step, [_vals(getattr(s, k)) for k in ("a1", "b1", "a2", "b2")], ref_e, ref_mom)
+            elif op == "hm0":
+                h = np.asarray(_vals(s.hm0()), dtype=float).reshape(nm)
+                if not np.all(close(h, ref_hm0, rtol=1e-12)):
+                    fail(step, "hm0", msg=f"Hm0 {h.tolist()} but the current variance density gives {ref_hm0.tolist()}")
+            elif op == "as1d":
+                chk_1d(step, s.as_frequency_spectrum(), ref_e, ref_mom, ref_hm0)
+        elif op == "mul_full":
+            s.multiply(np.full(s.shape(), 3.0), inplace=True)
+        elif op == "mul_direction":
+            s.multiply(wdir.copy(), dimensions=["direction"], inplace=True)
+        elif op == "fillna":
+            c.cat("history_fillna_filled_bins", int(np.sum(np.isnan(_vals(s.variance_density)))))
+            s.fillna(1.0)
+        elif op == "setitem":
+            da = s.dataset["variance_density"]
+            s["variance_density"] = da.copy(data=2.0 * _vals(da)[..., ::-1] + 0.25)
+        elif op == "dataset_assign":
+            s.dataset["variance_density"] = 0.5 * s.dataset["variance_density"].roll(direction=1, roll_coords=False)
+        else:
+            raise AssertionError(op)
+
+    # ---- after the last step: everything, against the density the object holds now ---------------------------
+    last = len(hist) - 1
+    cur, ref_e, ref_mom, ref_hm0 = current()
+    if tuple(s.e.dims) != lead_names + ("frequency",):
+        fail(last, "e dims", msg=f"e has dims {s.e.dims}")
+        return
+    chk_mom(last, [_vals(getattr(s, k)) for k in ("a1", "b1", "a2", "b2")], ref_e, ref_mom, "final moments")
+    chk_e(last, _vals(s.e), ref_e, "final e")
+    h = np.asarray(_vals(s.hm0()), dtype=float).reshape(nm)
+    if not np.all(close(h, ref_hm0, rtol=1e-12)):
+        fail(last, "final hm0", msg=f"Hm0 {h.tolist()} but the current variance density gives {ref_hm0.tolist()}")
+    s1 = s.as_frequency_spectrum()
+    chk_1d(last, s1, ref_e, ref_mom, ref_hm0)
+    for fn in ("m0", "tm01", "peak_frequency", "mean_direction", "mean_directional_spread"):
+        a = np.asarray(_vals(getattr(s, fn)()), dtype=float).reshape(nm)
+        b = np.asarray(_vals(getattr(s1, fn)()), dtype=float).reshape(nm)
+        if fn == "mean_direction":
+            with np.errstate(invalid="ignore"):
+                ok = (np.isnan(a) & np.isnan(b)) | (angle_diff(a, b) <= 1e-9)
+        else:
+            ok = close(a, b, rtol=1e-12)
+        if not np.all(ok):
+            fail(last, "final parity " + fn, msg=f"2D object {a.tolist()} vs as_frequency_spectrum() {b.tolist()}")
